@@ -11,6 +11,7 @@
  *
  * ops:
  *   wl rd <path>                         read an archive file (all formats/filters) -> "ok"
+ *        ("@refs/<name>" = $VERIF_REFS/<name>)
  *   wl wr <format> <filter> <seed> <n>   write n generated entries to memory          -> "ok"
  *   wl dw <seed> <n>                     extract n generated entries to a private dir -> "ok"
  *   wl dr                                archive_read_disk over a private, pre-made tree -> "ok"
@@ -390,7 +391,11 @@ static void t_op(char *line)
 	if (n >= 2 && !strcmp(w[0], "wl") && nwl < MAXWL) {
 		struct wl *x = &W[nwl]; memset(x, 0, sizeof *x);
 		snprintf(x->kind, sizeof x->kind, "%s", w[1]);
-		if (!strcmp(w[1], "rd") && n == 3) snprintf(x->a1, sizeof x->a1, "%s", w[2]);
+		if (!strcmp(w[1], "rd") && n == 3) {
+			/* "@refs/<name>": a decoded reference archive of libarchive's own test suite */
+			if (!strncmp(w[2], "@refs/", 6)) snprintf(x->a1, sizeof x->a1, "%s/%s", getenv("VERIF_REFS") ? getenv("VERIF_REFS") : ".", w[2] + 6);
+			else snprintf(x->a1, sizeof x->a1, "%s", w[2]);
+		}
 		else if (!strcmp(w[1], "wr") && n == 6) { snprintf(x->a1, sizeof x->a1, "%s", w[2]); snprintf(x->a2, sizeof x->a2, "%s", w[3]); x->seed = atol(w[4]); x->n = atol(w[5]); }
 		else if (!strcmp(w[1], "dw") && n == 4) { x->seed = atol(w[2]); x->n = atol(w[3]); }
 		else if (!strcmp(w[1], "dr") && n == 2) { }
